@@ -235,10 +235,6 @@ where
     fn solve(&mut self, timeout: Duration) -> Result<Path<S>, PlanningError> {
         #[cfg(feature = "verif")]
         use crate::verif::SimInstant as Instant;
-        let mut rng = self
-            .rng
-            .take()
-            .unwrap_or_else(|| Box::new(StdRng::from_os_rng()));
         let start_time = Instant::now();
         let pd = self
             .problem_def
@@ -255,6 +251,13 @@ where
             return Err(PlanningError::InvalidStartState);
         }
 
+        // The generator is moved out for the duration of the search and put back on every exit,
+        // so that later calls continue the same seeded stream.
+        let mut rng = self
+            .rng
+            .take()
+            .unwrap_or_else(|| Box::new(StdRng::from_os_rng()));
+
         // The goal tree's root is a goal sample that no motion check ever validates.
         let mut goal_root_is_valid = false;
 
@@ -262,6 +265,7 @@ where
         loop {
             // 1. Check for timeout
             if start_time.elapsed() > timeout {
+                self.rng = Some(rng);
                 return Err(PlanningError::Timeout);
             }
 
@@ -303,6 +307,7 @@ where
                 // If growing the start tree, check if the new node is already in the goal.
                 if is_growing_start_tree && goal.is_satisfied(q_new) {
                     println!("Solution found by start tree reaching goal directly.");
+                    self.rng = Some(rng);
                     return Ok(self.reconstruct_path(&self.start_tree, new_node_idx_a));
                 }
 
@@ -334,6 +339,7 @@ where
                         // connection point) to the start path.
                         start_path.extend(goal_path.into_iter().skip(1));
 
+                        self.rng = Some(rng);
                         return Ok(Path(start_path));
                     }
                 }
